@@ -176,6 +176,7 @@ RULE_TEXT = (
     "missing tags/operationIds, deprecated and x-internal operations and links; the peer's wire log of all phases (incl. link "
     "targets and 'unexpected method' coverage cases) is checked against an independent reference selection, selected "
     "operations must be offered in every unit phase, reported selected/total operation and link counts must equal the reference; "
+    "then the same filters through the Python API (chained schema.include()/exclude() views, in half of the runs derived after the parent's statistic was read): the view's reported counts must equal what the view itself offers; "
     "non-trivial = at least one operation excluded and at least one selected and >= 5 test requests; distinct = distinct "
     "(filter configuration, wire digest)"
 )
@@ -184,13 +185,13 @@ ASSUMPTIONS = [
     "filter combinations are sampled, not enumerated; regexes come from a small safe set",
     "stateful link targets are reachable only through the harness shim (requires=links-followed for link-target violations)",
 ]
-EXPECTED_PROBES = ["excluded_ops", "regex_filters", "by_filters", "exclude_deprecated", "stateful_requests", "usage_errors"]
+EXPECTED_PROBES = ["excluded_ops", "regex_filters", "by_filters", "exclude_deprecated", "stateful_requests", "usage_errors", "api_views", "api_views_after_measuring"]
 
 
 def fired_faults(desc: dict, res: dict) -> dict:
     st = res.get("stats") or {}
     out = {}
-    for k in ("excluded_ops", "regex_filters", "by_filters", "exclude_deprecated", "stateful_requests", "usage_errors", "empty_selection"):
+    for k in ("excluded_ops", "regex_filters", "by_filters", "exclude_deprecated", "stateful_requests", "usage_errors", "empty_selection", "api_views", "api_views_after_measuring"):
         if st.get(k):
             out[k] = st[k]
     return out
@@ -205,6 +206,42 @@ def nontrivial(desc: dict, res: dict) -> bool:
 class C07Profile(Profile):
     name = "c07"
     property_id = PROPERTY
+
+    def run(self, ctx) -> None:
+        super().run(ctx)
+        f = ctx.config["filters"]
+        if ctx.loop_exception is not None or f["include_by"] or f["exclude_by"]:
+            return
+        # Python-API stage: the same filters applied through schema.include()/exclude() (each call derives a filtered view
+        # from its parent); in half of the runs the parent's statistic was read before the views were derived
+        from .. import workload as W
+
+        try:
+            schema = W.load_schema(ctx)
+            measured_first = bool((ctx.desc["run_seed"] >> 3) & 1)
+            if measured_first:
+                _ = schema.statistic
+            view = schema
+            for side in ("include", "exclude"):
+                for attr, val in f[side]:
+                    view = getattr(view, side)(**{attr: val})
+                for attr, rx in f[side + "_regex"].items():
+                    view = getattr(view, side)(**{attr + "_regex": rx})
+            if f["exclude_deprecated"]:
+                view = view.exclude(deprecated=True)
+            offered = []
+            for res in view.get_all_operations():
+                try:
+                    offered.append(res.ok().label)
+                except Exception:  # noqa: BLE001 - an Err entry: not an offered operation
+                    pass
+            stat = view.statistic
+            ctx.extra["c07_api"] = {
+                "measured_first": measured_first, "offered": sorted(offered),
+                "ops": (stat.operations.selected, stat.operations.total), "links": (stat.links.selected, stat.links.total),
+            }
+        except Exception as exc:  # noqa: BLE001
+            ctx.extra["c07_api_error"] = f"{type(exc).__name__}: {exc}"[:200]
 
     def judge(self, ctx, status: str) -> list[dict]:
         from schemathesis.engine import events
@@ -278,6 +315,25 @@ class C07Profile(Profile):
             if (stat.links.selected, stat.links.total) != (sel_links, total_links):
                 v("R3", f"reported links {stat.links.selected} selected / {stat.links.total} total, reference {sel_links} / {total_links} "
                         f"(filters {filter_argv(f)})", what="link_counts_differ", expression_through_ref=through_ref)
+        # R4: the Python-API route - a filtered view reports exactly the counts of what it offers (chained include()/exclude()
+        # calls combine differently from one CLI invocation, so the oracle is the view's own offer, not the CLI reference)
+        api = ctx.extra.get("c07_api")
+        if api is not None:
+            st["api_views"] = 1
+            st["api_views_after_measuring"] = int(api["measured_first"])
+            off = set(api["offered"])
+            total_links = sum(len(o.links) for o in u.ops.values())
+            off_links = sum(1 for k, o in u.ops.items() if k in off for l in o.links if l["target"] in off)
+            if not off <= set(u.ops):
+                v("R4", f"filtered view offers unknown operations {sorted(off - set(u.ops))[:4]}", what="api_view_offers_unknown_operation")
+            if tuple(api["ops"]) != (len(off), len(u.ops)):
+                v("R4", f"filtered view reports operations {api['ops'][0]} selected / {api['ops'][1]} total but offers {len(off)} of {len(u.ops)} "
+                        f"(parent statistic read before filtering: {api['measured_first']}; filters {filter_argv(f)})",
+                  what="api_view_operation_counts_differ", measured_first=api["measured_first"])
+            if tuple(api["links"]) != (off_links, total_links):
+                v("R4", f"filtered view reports links {api['links'][0]} selected / {api['links'][1]} total, its own offer has {off_links} / {total_links} "
+                        f"(parent statistic read before filtering: {api['measured_first']}; filters {filter_argv(f)})",
+                  what="api_view_link_counts_differ", measured_first=api["measured_first"])
         return vs
 
     def stats(self, ctx) -> dict:
